@@ -10,7 +10,7 @@ From CG Require Import Proofs.RxLang Proofs.Glushkov Proofs.SubsetStmt Proofs.Su
 From CG Require Import Proofs.LangJudge Proofs.C02Lang.
 From CG Require Import Model.Minimize Spec.DfaEquiv Spec.MinimizeSpec.
 From CG Require Import Proofs.Useful Proofs.RegexFuel Proofs.SubsetFuel Proofs.TreeFacts Proofs.CheckTree.
-From CG Require Import Proofs.WfTrim Proofs.C02Total.
+From CG Require Import Proofs.WfTrim Proofs.C02Total Proofs.RegexNoPanic Proofs.C02Final.
 
 (** (a) L-glushkov for the model's tables: for the tree [t] of an expression (n-ary [Cat] with the
     skip-nullable loop, [Or], [Many1 x = Cat [x; Star x]] sharing [x]) and its end marker [e], a
@@ -319,8 +319,19 @@ Check C02_fuel_subset :
     dfa_from_regex pick fuel submap r <> OutOfFuel.
 Print Assumptions C02_fuel_subset.
 
-(** Totality, from the checker's output: the regex is built (no panic), the ambiguity check does
-    not run out of fuel, and for every pop order, every oracle defined on the within-word regexes
+Theorem C02_check_ambiguities_result :
+  forall e r pl, flat_subwords e = true -> from_expr e [] = Ok (r, pl) ->
+    check_ambiguities r pl = Ok tt \/
+    exists a b, check_ambiguities r pl = Err (UnboundedMatchable a b).
+Proof. exact check_ambiguities_result. Qed.
+Check C02_check_ambiguities_result :
+  forall e r pl, flat_subwords e = true -> from_expr e [] = Ok (r, pl) ->
+    check_ambiguities r pl = Ok tt \/
+    exists a b, check_ambiguities r pl = Err (UnboundedMatchable a b).
+Print Assumptions C02_check_ambiguities_result.
+
+(** Totality, from the checker's output: the regex is built (no panic), the ambiguity check
+    returns [Ok] or the [UnboundedMatchable] diagnostic (no panic, no fuel exhaustion), and for every pop order, every oracle defined on the within-word regexes
     that occur and every fuel above [2^(positions+1)] the raw automaton exists, satisfies C03's
     hypotheses, its minimisation exists and is the trim minimal automaton of the same language,
     and with minimised within-word automata it accepts exactly what the tree denotes. *)
@@ -329,7 +340,8 @@ Theorem C02_total :
     from_grammar builtins g sh = Ok v -> grammar_alts_nonempty g = true ->
     exists r pl,
       from_expr (v_expr v) [] = Ok (r, pl) /\
-      check_ambiguities r pl <> OutOfFuel /\
+      (check_ambiguities r pl = Ok tt \/
+       exists a b, check_ambiguities r pl = Err (UnboundedMatchable a b)) /\
       forall pick fuel submap,
         (forall rid l sp, In (RSub rid l sp) (r_inputs r) -> assocN rid submap <> None) ->
         (pow2 (S (List.length (r_inputs r))) < fuel)%nat ->
@@ -341,13 +353,14 @@ Theorem C02_total :
           trim m /\ pairwise_distinguishable m /\ minimal_size m /\
           forall subs, subs_minimised submap pl subs ->
             forall w, accepts_items (mkcdfa m subs) w <-> denotes (v_expr v) w.
-Proof. exact C02_total_model. Qed.
+Proof. exact C02_total_full. Qed.
 Check C02_total :
   forall builtins g sh v,
     from_grammar builtins g sh = Ok v -> grammar_alts_nonempty g = true ->
     exists r pl,
       from_expr (v_expr v) [] = Ok (r, pl) /\
-      check_ambiguities r pl <> OutOfFuel /\
+      (check_ambiguities r pl = Ok tt \/
+       exists a b, check_ambiguities r pl = Err (UnboundedMatchable a b)) /\
       forall pick fuel submap,
         (forall rid l sp, In (RSub rid l sp) (r_inputs r) -> assocN rid submap <> None) ->
         (pow2 (S (List.length (r_inputs r))) < fuel)%nat ->
